@@ -7,5 +7,11 @@ Definition genreset_call_sites : list string := ["internal/validator/test_utils.
 Definition sk_genvar : string := "return call Sprintf, call AddInt64".
 Definition sk_get_map_keys : string := "call Map; if err != nil { return }; call make; for { if pending { call append; call delete } }; return".
 Definition sk_yaml_get : string := "if y.data != nil && y.data.Kind == yaml.MappingNode { for { if k.Kind == yaml.ScalarNode && k.Value == key { return } } }; return".
+Definition parser_expression_key_order : list string := ["propertyConstraints"; "rego"; "regoModule"; "and"; "or"; "not"; "if"; "then"; "else"].
+Definition parser_validation_key_order : list string := ["targetClass"; "message"].
+Definition parser_constraint_key_order : list string := ["minCount"; "maxCount"; "exactCount"; "minLength"; "maxLength"; "exactLength"; "pattern"; "in"; "uniqueValues"; "containsAll"; "containsSome"; "lessThanProperty"; "lessThanOrEqualsToProperty"; "equalsToProperty"; "disjointWithProperty"; "moreThanProperty"; "moreThanOrEqualsToProperty"; "atLeast"; "atMost"; "exactly"; "minInclusive"; "minExclusive"; "maxInclusive"; "maxExclusive"; "datatype"; "nested"; "rego"; "regoModule"].
+Definition parser_qualified_key_order : list string := ["count"; "validation"].
+Definition parser_profile_key_order : list string := ["profile"; "description"; "rego_extensions"; "prefixes"; "validations"].
+Definition parser_level_order : list string := ["violation"; "warning"; "info"].
 Definition sk_iri_expander_from : string := "call make; call MergeObjectMap; range profile.Prefixes {  }; return".
 Definition normalize_options : list string := ["NewJsonLdOptions("""")"; "Flatten(json, context, options)"].
